@@ -6,6 +6,12 @@
 //   F <e> <mask> en=<isEnabled() of every event>       at entry of the callback of event e
 //   E <e> rets=<result of each script action> en=…     when its script has run
 //   P ret=<r> en=…                                      after every op outside callbacks
+//   TF <k> en=… / TE <k> rets=… en=…                    entry / end of the callback of the one-shot timer of callable k
+//   NF <k> en=… / NE <k> rets=… en=…                    entry / end of the deferred task (runNext) running callable k
+// Callables (`fn <script>`) carry the same scripts as descriptor callbacks; script items `t<k>` arm the 1 ms one-shot
+// timer of callable k (due in the next turn: every `pass` advances the virtual clock by 1 ms), `n<k>` posts it with runNext.
+// Slots 0-5 are socket pairs on descriptors 200,202,…; slots 1023 and 1024 are socket pairs on exactly those numbers
+// (FD_SETSIZE - 1 and FD_SETSIZE).  `eintr` makes the next wait return -1/EINTR without asking the kernel.
 // Masks are tbox bits (1 read, 2 write, 4 except).  Format matches lean/Driver/C03.lean.
 #include "vh.h"
 #include "vtime.h"
@@ -15,6 +21,7 @@
 #include <sys/epoll.h>
 #include <sys/select.h>
 #include <sys/socket.h>
+#include <sys/resource.h>
 #include <unistd.h>
 #include <signal.h>
 #include <cerrno>
@@ -28,10 +35,16 @@
 
 using namespace tbox::event;
 
-static const int kSlots = 6;
-static inline int W(int f) { return 200 + 2 * f; }   // watched end of slot f
-static inline int Pe(int f) { return 201 + 2 * f; }  // peer end (held by the harness)
-static int slot_of(int fd) { return (fd >= 200 && fd < 200 + 2 * kSlots && (fd % 2) == 0) ? (fd - 200) / 2 : -1; }
+static const int kSlots = 8;
+static const int kSlotNo[kSlots] = {0, 1, 2, 3, 4, 5, 1023, 1024};      // slot numbers as the op files write them
+static inline int idx(int f) { return f < 6 ? f : 6 + (f - 1023); }      // index into per-slot tables
+static inline int W(int f) { return f < 6 ? 200 + 2 * f : f; }           // watched end of slot f
+static inline int Pe(int f) { return f < 6 ? 201 + 2 * f : 990 + (f - 1023); }  // peer end (held by the harness)
+static int slot_of(int fd) {
+    if (fd == 1023 || fd == 1024) return fd;
+    return (fd >= 200 && fd < 212 && (fd % 2) == 0) ? (fd - 200) / 2 : -1;
+}
+static bool g_eintr = false;              // op `eintr`: the next wait is interrupted
 
 // ---------------------------------------------------------------- interposition
 static bool want_k = false;
@@ -60,14 +73,16 @@ extern "C" int epoll_ctl(int epfd, int op, int fd, struct epoll_event *ev) {
 extern "C" int epoll_wait(int epfd, struct epoll_event *evs, int maxevents, int timeout) {
     typedef int (*fn_t)(int, struct epoll_event *, int, int);
     static fn_t real = (fn_t)dlsym(RTLD_NEXT, "epoll_wait");
-    int n = real(epfd, evs, maxevents, timeout);
+    bool intr = want_k && g_eintr;
+    int n = intr ? -1 : real(epfd, evs, maxevents, timeout);
     if (want_k) {
         want_k = false;
         std::string s = "K i=";
-        for (int f = 0; f < kSlots; ++f) {
-            auto it = g_reg.find(W(f));
+        for (int j = 0; j < kSlots; ++j) {
+            auto it = g_reg.find(W(kSlotNo[j]));
             s += char('0' + (it == g_reg.end() ? 0 : tbox_bits(it->second.events & ~EPOLLHUP)));
         }
+        if (intr) { g_eintr = false; std::cout << s << " r=EINTR\n"; errno = EINTR; return -1; }
         s += " r=";
         bool any = false;
         for (int i = 0; i < n; ++i) {
@@ -92,11 +107,12 @@ extern "C" int select(int nfds, fd_set *r, fd_set *w, fd_set *e, struct timeval 
     if (k) {
         want_k = false;
         s = "K i=";
-        for (int f = 0; f < kSlots; ++f) {
-            int fd = W(f), m = 0;
-            if (fd < nfds) { if (r && FD_ISSET(fd, r)) m |= 1; if (w && FD_ISSET(fd, w)) m |= 2; if (e && FD_ISSET(fd, e)) m |= 4; }
+        for (int j = 0; j < kSlots; ++j) {
+            int fd = W(kSlotNo[j]), m = 0;
+            if (fd < nfds && fd < FD_SETSIZE) { if (r && FD_ISSET(fd, r)) m |= 1; if (w && FD_ISSET(fd, w)) m |= 2; if (e && FD_ISSET(fd, e)) m |= 4; }
             s += char('0' + m);
         }
+        if (g_eintr) { g_eintr = false; std::cout << s << " r=EINTR\n"; errno = EINTR; return -1; }
     }
     int n = real(nfds, r, w, e, tv);
     if (k && n < 0) {
@@ -106,9 +122,9 @@ extern "C" int select(int nfds, fd_set *r, fd_set *w, fd_set *e, struct timeval 
     } else if (k) {
         s += " r=";
         bool any = false;
-        if (n > 0) for (int f = 0; f < kSlots; ++f) {
-            int fd = W(f), m = 0;
-            if (fd < nfds) { if (r && FD_ISSET(fd, r)) m |= 1; if (w && FD_ISSET(fd, w)) m |= 2; if (e && FD_ISSET(fd, e)) m |= 4; }
+        if (n > 0) for (int j = 0; j < kSlots; ++j) {
+            int f = kSlotNo[j], fd = W(f), m = 0;
+            if (fd < nfds && fd < FD_SETSIZE) { if (r && FD_ISSET(fd, r)) m |= 1; if (w && FD_ISSET(fd, w)) m |= 2; if (e && FD_ISSET(fd, e)) m |= 4; }
             if (!m) continue;
             if (any) s += ",";
             s += std::to_string(f) + ":" + std::to_string(m);
@@ -131,12 +147,12 @@ static void reopen_slot(int f) {
     dup2(sv[0], W(f)); dup2(sv[1], Pe(f));
     close(sv[0]); close(sv[1]);
     g_reg.erase(W(f));
-    slot_open[f] = true;
+    slot_open[idx(f)] = true;
 }
 // close the watched end and leave its number unused (the peer end stays with the harness)
 static bool kill_slot(int f) {
-    if (!slot_open[f]) return false;
-    close(W(f)); g_reg.erase(W(f)); slot_open[f] = false;
+    if (!slot_open[idx(f)]) return false;
+    close(W(f)); g_reg.erase(W(f)); slot_open[idx(f)] = false;
     return true;
 }
 // several rounds: a read stops at (and then discards) a pending out-of-band mark
@@ -149,6 +165,10 @@ struct Obj { FdEvent *p = nullptr; int slot = -1; std::vector<Act> script; };
 static std::vector<Obj> objs;
 static Loop *loop = nullptr;
 static TimerEvent *g_timer = nullptr;     // op `tm`: a 1 ms persistent timer; every `pass` advances the virtual clock by 1 ms
+struct Fn { TimerEvent *timer = nullptr; std::vector<Act> script; };
+static std::vector<Fn> fns;               // callables: scripts run by one-shot timers and deferred tasks
+static bool g_quiet = false;              // the case is over: tasks still queued in the old loop do nothing
+static void run_fn(const char *kind, int k);
 
 static std::string bits() {
     std::string s;
@@ -160,11 +180,18 @@ static int apply(const Act &a) {
     switch (a.kind) {
         case 'c': reopen_slot(a.f); return 1;             // also while event objects still refer to the number
         case 'k': return kill_slot(a.f) ? 1 : 0;
-        case 'r': if (slot_open[a.f]) { char c = 'r'; (void)!write(Pe(a.f), &c, 1); } return 1;
-        case 'o': if (slot_open[a.f]) { char c = '!'; (void)!send(Pe(a.f), &c, 1, MSG_OOB); } return 1;
-        case 'u': if (slot_open[a.f]) drain(W(a.f)); return 1;
-        case 'b': if (slot_open[a.f]) fill(W(a.f)); return 1;
-        case 'w': if (slot_open[a.f]) drain(Pe(a.f)); return 1;
+        case 'r': if (slot_open[idx(a.f)]) { char c = 'r'; (void)!write(Pe(a.f), &c, 1); } return 1;
+        case 'o': if (slot_open[idx(a.f)]) { char c = '!'; (void)!send(Pe(a.f), &c, 1, MSG_OOB); } return 1;
+        case 'u': if (slot_open[idx(a.f)]) drain(W(a.f)); return 1;
+        case 'b': if (slot_open[idx(a.f)]) fill(W(a.f)); return 1;
+        case 'w': if (slot_open[idx(a.f)]) drain(Pe(a.f)); return 1;
+        case 't': if (a.a < 0 || (size_t)a.a >= fns.size()) return 0; return fns[a.a].timer->enable() ? 1 : 0;
+        case 'n': {
+            if (a.a < 0 || (size_t)a.a >= fns.size()) return 0;
+            int k = a.a;
+            loop->runNext([k] { run_fn("N", k); }, "verif-task");
+            return 1;
+        }
     }
     if (a.a < 0 || (size_t)a.a >= objs.size() || objs[a.a].p == nullptr) return 0;   // no such object (model: alive = false)
     Obj &o = objs[a.a];
@@ -184,6 +211,20 @@ static int apply(const Act &a) {
 static bool num(const std::string &s, int &v, int lim) {
     uint64_t u; if (!vh::to_u64(s, u) || u >= (uint64_t)lim) return false; v = (int)u; return true;
 }
+static bool slotnum(const std::string &s, int &v) {
+    if (!num(s, v, 2000)) return false;
+    for (int j = 0; j < kSlots; ++j) if (kSlotNo[j] == v) return true;
+    return false;
+}
+
+static void run_fn(const char *kind, int k) {
+    if (g_quiet || k < 0 || (size_t)k >= fns.size()) return;
+    std::cout << kind << "F " << k << " en=" << bits() << "\n";
+    std::vector<Act> sc = fns[k].script;
+    std::string rets;
+    for (auto &a : sc) rets.push_back(apply(a) ? '1' : '0');
+    std::cout << kind << "E " << k << " rets=" << (rets.empty() ? "-" : rets) << " en=" << bits() << "\n";
+}
 
 // "e1" "d0" "x2" "i3:0:1:o" "c2" "k2" "r0" "o0" "u0" "b1" "w1"
 static bool parse_act(const std::string &w, Act &a) {
@@ -195,13 +236,14 @@ static bool parse_act(const std::string &w, Act &a) {
             std::vector<std::string> p; std::stringstream ss(rest); std::string t;
             while (std::getline(ss, t, ':')) p.push_back(t);
             if (p.size() != 4 || rest.back() == ':') return false;
-            if (!num(p[0], a.a, 1000) || !num(p[1], a.f, kSlots) || !num(p[2], a.mask, 8)) return false;
+            if (!num(p[0], a.a, 1000) || !slotnum(p[1], a.f) || !num(p[2], a.mask, 65536)) return false;
             if (p[3] != "o" && p[3] != "p") return false;
             a.oneshot = p[3] == "o";
             return true;
         }
         case 'e': case 'd': case 'x': return num(rest, a.a, 1000);
-        case 'c': case 'k': case 'r': case 'o': case 'u': case 'b': case 'w': return num(rest, a.f, kSlots);
+        case 'c': case 'k': case 'r': case 'o': case 'u': case 'b': case 'w': return slotnum(rest, a.f);
+        case 't': case 'n': return num(rest, a.a, 16);
     }
     return false;
 }
@@ -220,10 +262,13 @@ static bool parse_script(const std::string &w, std::vector<Act> &out, int self) 
 }
 
 static void reset_all() {
+    g_quiet = true; g_eintr = false;
     delete g_timer; g_timer = nullptr;
+    for (auto &f : fns) { delete f.timer; f.timer = nullptr; }
+    fns.clear();
     for (auto &o : objs) { FdEvent *p = o.p; o.p = nullptr; delete p; }
     objs.clear();
-    for (int f = 0; f < kSlots; ++f) reopen_slot(f);
+    for (int j = 0; j < kSlots; ++j) reopen_slot(kSlotNo[j]);
 }
 
 int main() {
@@ -231,11 +276,14 @@ int main() {
     vt::enable(1000, 1700000000000LL);
     signal(SIGPIPE, SIG_IGN);
     std::cout << std::unitbuf;            // a sanitizer abort must not lose the lines already produced
-    for (int f = 0; f < kSlots; ++f) reopen_slot(f);
+    struct rlimit rl;
+    if (getrlimit(RLIMIT_NOFILE, &rl) == 0 && rl.rlim_cur < 2048) { rl.rlim_cur = rl.rlim_max < 2048 ? rl.rlim_max : 2048; setrlimit(RLIMIT_NOFILE, &rl); }
+    for (int j = 0; j < kSlots; ++j) reopen_slot(kSlotNo[j]);
     std::string kind = "epoll";
     bool eof = false, pending_pass = false;
     while (!eof) {
         loop = Loop::New(kind);
+        g_quiet = false;
         if (!loop) { std::cerr << "no such engine " << kind << "\n"; return 4; }
         vh::LoopDriver drv(loop);
         drv.step = [&]() -> bool {
@@ -255,6 +303,19 @@ int main() {
                 }
                 if (w[0] == "cmp" && w.size() == 1) { std::cout << "P cmp\n"; continue; }
                 if (w[0] == "pass" && w.size() == 1) { vt::advance_ms(1); want_k = true; pending_pass = true; return true; }
+                if (w[0] == "eintr" && w.size() == 1 && !g_eintr) { g_eintr = true; std::cout << "P eintr\n"; continue; }
+                if (w[0] == "fn" && w.size() == 2) {
+                    int k = (int)fns.size();
+                    std::vector<Act> sc;
+                    if (k >= 16 || !parse_script(w[1], sc, -1)) { std::cout << "bad-op\n"; continue; }
+                    Fn f; f.script = sc;
+                    f.timer = loop->newTimerEvent("verif-fn");
+                    f.timer->initialize(std::chrono::milliseconds(1), Event::Mode::kOneshot);
+                    f.timer->setCallback([k] { run_fn("T", k); });
+                    fns.push_back(f);
+                    std::cout << "P fn=" << k << "\n";
+                    continue;
+                }
                 if (w[0] == "tm" && w.size() == 1 && g_timer == nullptr) {
                     g_timer = loop->newTimerEvent("verif");
                     g_timer->initialize(std::chrono::milliseconds(1), Event::Mode::kPersist);
@@ -270,7 +331,7 @@ int main() {
                     size_t base = objs.size();
                     for (int i = 0; i < nb; ++i) {
                         Obj o; o.p = loop->newFdEvent("verif-bulk");
-                        o.p->initialize(1000 + i, 0, Event::Mode::kPersist);
+                        o.p->initialize(600 + i, 0, Event::Mode::kPersist);
                         objs.push_back(o);
                     }
                     for (int i = 0; i < nb; ++i) { FdEvent *p = objs[base + i].p; objs[base + i].p = nullptr; delete p; }
